@@ -123,6 +123,11 @@ private theorem exchange_spec (lib : Lib) (c : Conn) (tok : Nat) (b : Beh) (hc :
       simp only [Att.done.injEq] at h
       obtain ⟨rfl, rfl⟩ := h
       exact ⟨hal, by simp, by simp⟩
+    case statusChunked code body =>
+      simp only [Att.done.injEq] at h
+      obtain ⟨rfl, rfl⟩ := h
+      refine ⟨?_, by simp, by simp⟩
+      cases lib.closeNoLen <;> simp [Cache.safe, Conn.safe, hd, hi]
     case statusLongLate code r =>
       simp only [Att.done.injEq] at h
       obtain ⟨rfl, rfl⟩ := h
@@ -572,7 +577,136 @@ theorem C19_recovery_tight :
       [.transportError 204, .other "http-state", .result 2] := by
   decide
 
+/- ---------- what the body of a non-200 reply holds, and how it is framed ---------- -/
+
+/-- A non-200 reply surfaces as `TransportError` carrying its status WHATEVER ITS BODY HOLDS — nothing, tens of KiB, an
+    HTML page in UTF-8 or in ISO-8859-1, gzip-compressed bytes with or without `Content-Encoding`, arbitrary bytes,
+    text cut inside a character, UTF-16, JSON-RPC look-alikes — and however it is framed: a Content-Length (keep-alive
+    or `Connection: close`), no length and a close, chunked transfer encoding. -/
+theorem C19_error_body_transport_error (lib : Lib) (cache : Cache) (tok : Nat) (rest : List Beh) (hg : Cache.good cache = true)
+    (code : ErrCode) (len : Bool) (body : Body) :
+    (call lib cache tok (.status code len body :: rest)).1 = .transportError code.n ∧
+    (call lib cache tok (.statusChunked code body :: rest)).1 = .transportError code.n ∧
+    (call lib cache tok (.statusLenClose code body :: rest)).1 = .transportError code.n := by
+  cases cache with
+  | none => cases len <;> simp [call, attempt, exchange]
+  | some c =>
+    simp only [Cache.good, Bool.and_eq_true, Bool.not_eq_true', List.isEmpty_iff] at hg
+    obtain ⟨⟨hd, hi⟩, hp⟩ := hg
+    cases hs : c.stale <;> cases len <;> simp [call, attempt, exchange, hd, hi, hp, hs]
+
+private theorem deliver_eraseBody (lib : Lib) (c : Conn) (tok : Nat) (r : Reply) :
+    deliver lib c tok { r with final := r.final.eraseBody } = deliver lib c tok r := by
+  obtain ⟨infos, final, cuts⟩ := r
+  cases final with
+  | status code body len =>
+    have hcl : ∀ b, (Final.status code b len).closes = (Final.status code body len).closes := by
+      intro b; cases len with
+      | none => rfl
+      | some d => cases d <;> rfl
+    unfold deliver
+    simp only [Final.eraseBody, hcl]
+    cases firstOther infos with
+    | some k => rfl
+    | none =>
+      cases len with
+      | none => rfl
+      | some d => cases d <;> rfl
+  | ok d => rfl
+  | bodiless nm len => rfl
+
+private theorem exchange_eraseBody (lib : Lib) (c : Conn) (tok : Nat) (b : Beh) :
+    exchange lib c tok b.eraseBody = exchange lib c tok b := by
+  unfold exchange
+  cases hi : c.inbound with
+  | cons x rest => cases x <;> rfl
+  | nil =>
+    cases b <;> simp only [Beh.eraseBody]
+    case status code len body => cases len <;> rfl
+    case scripted r => exact deliver_eraseBody lib c tok r
+
+private theorem eraseBody_down (b : Beh) : b.eraseBody = .down ↔ b = .down := by
+  cases b <;> simp [Beh.eraseBody]
+
+private theorem attempt_eraseBody (lib : Lib) (cache : Cache) (tok : Nat) (bs : List Beh) :
+    attempt lib cache tok (bs.map Beh.eraseBody) =
+      ((attempt lib cache tok bs).1, (attempt lib cache tok bs).2.map Beh.eraseBody) := by
+  cases cache with
+  | some c =>
+    unfold attempt
+    simp only
+    split
+    · simp
+    · split
+      · simp
+      · split
+        · simp
+        · cases bs with
+          | nil => simp
+          | cons b rest => simp [exchange_eraseBody]
+  | none =>
+    cases bs with
+    | nil => simp [attempt]
+    | cons b rest =>
+      by_cases hdn : b = .down
+      · subst hdn; simp [attempt, Beh.eraseBody]
+      · have hne : b.eraseBody ≠ .down := fun h => hdn ((eraseBody_down b).mp h)
+        have h1 : attempt lib none tok (b.eraseBody :: rest.map Beh.eraseBody)
+            = (exchange lib {} tok b.eraseBody, rest.map Beh.eraseBody) := by
+          cases hb : b.eraseBody <;> simp_all [attempt]
+        have h2 : attempt lib none tok (b :: rest) = (exchange lib {} tok b, rest) := by
+          cases b <;> simp_all [attempt]
+        simp only [List.map_cons, h1, h2, exchange_eraseBody]
+
+private theorem call_eraseBody (lib : Lib) (cache : Cache) (tok : Nat) (bs : List Beh) :
+    call lib cache tok (bs.map Beh.eraseBody) = call lib cache tok bs := by
+  have hhd : ((bs.map Beh.eraseBody).head? = some Beh.down) = (bs.head? = some Beh.down) := by
+    cases bs with
+    | nil => simp
+    | cons b rest => simp [eraseBody_down]
+  unfold call
+  simp only [hhd]
+  generalize (if bs.head? = some Beh.down then cache.map (fun c => { c with stale := true }) else cache) = cache'
+  rw [attempt_eraseBody]
+  cases h1 : attempt lib cache' tok bs with
+  | mk a bs' =>
+    cases a with
+    | done o c => rfl
+    | retryable =>
+      simp only
+      rw [attempt_eraseBody]
+      cases attempt lib none tok bs' with
+      | mk a2 bs'' => cases a2 <;> rfl
+
+/-- THE BODY OF A NON-200 REPLY IS IRRELEVANT: a whole session — every outcome of every call and the connection left
+    behind — is the one in which every such body is plain text.  (The code never looks at the bytes: it drains them
+    when a length is announced, `C19_gen_errorBodyUnused`.)  In particular no content of an error body can make a call
+    raise anything but `TransportError`, return anything, or disturb a later call. -/
+theorem C19_error_body_irrelevant (lib : Lib) : ∀ (scripts : List (List Beh)) (cache : Cache) (tok : Nat),
+    session lib cache tok (scripts.map (·.map Beh.eraseBody)) = session lib cache tok scripts := by
+  intro scripts
+  induction scripts with
+  | nil => intro cache tok; rfl
+  | cons bs rest ih =>
+    intro cache tok
+    simp only [List.map_cons, session, call_eraseBody, ih]
+
+/-- Error replies of every framing followed by healthy calls, for the code as it stands (drains when a length is
+    announced, does not close otherwise): every later call returns its own result — except after a chunked error
+    body, which nothing reads: the one next call fails (`ResponseNotReady`), the one after succeeds. -/
+theorem C19_error_body_recovery (code : ErrCode) (body : Body) (len : Bool) :
+    (session ⟨true, false⟩ none 0 [[.status code len body], [], []]).1 = [.transportError code.n, .result 1, .result 2] ∧
+    (session ⟨true, false⟩ none 0 [[.statusLenClose code body], [], []]).1 = [.transportError code.n, .result 1, .result 2] ∧
+    (session ⟨true, false⟩ none 0 [[.statusChunked code body], [], []]).1 =
+      [.transportError code.n, .other "http-state", .result 2] := by
+  cases len <;> simp [session, call, attempt, exchange, afterLength]
+
 /- Non-vacuity -/
+example : (session ⟨true, false⟩ none 0 [[.okKeep], [.status ⟨503, by decide⟩ true .latin1], [], [.statusChunked ⟨502, by decide⟩ .gzipDeclared],
+      [], [.statusLenClose ⟨500, by decide⟩ .binary], []]).1 =
+    [.result 0, .transportError 503, .result 2, .transportError 502, .other "http-state", .transportError 500, .result 6] := by decide
+example : ([[Beh.statusChunked ⟨502, by decide⟩ .gzipBare], [.statusLenClose ⟨404, by decide⟩ .huge]] : List (List Beh)).all
+    (fun bs => bs.all Beh.framed) = true := by decide
 example : (session ⟨true, false⟩ none 7 [[.okClose], [.closeBeforeReply, .okKeep],
       [.status ⟨500, by decide⟩ true .own], [.truncated], []]).1 =
     [.result 7, .other "disconnected", .transportError 500, .other "decode", .result 11] := by decide
